@@ -34,6 +34,7 @@ EXPLANATION = (
     'raise / select-for-deletion / keep), dominance facts (loop exit < subtraction < first chunk deletion), who-may-call and provenance checks on the '
     'chunk naming function, the chunk table and the chunk upload site, and the whitelist of "no body" outcomes of the snapshot loader. Rules C02.R1-R8.'
     ' Added with the seeded-defect rounds: the keep set only grows, leftovers of a finished loop, local listings that lose entries silently (os.walk without onerror, widened OSError handlers), complete pagination of every adapter, atomic publication and rewind-before-retry of uploads, chunk-record freshness, deletion reachable only from delete / clean / delete-objects.'
+    ' Round 6: adapter delete discipline (request addressed by the name argument, only the no-such-object answers absorbed).'
 )
 NOT_DECIDED = 'interleavings of destructive commands issued concurrently from several processes; byte-level restorability is not executed'
 TRUSTED = ['CPython ast', 'hash collision resistance (content addressing)']
